@@ -16,10 +16,9 @@ import (
 // c07Misuse: functions whose explicit panics are the documented programmer
 // misuse the property excludes, with the number of panic sites confirmed.
 var c07Misuse = map[string]int{
-	"cron.NewParser":                    1, // two optional fields
-	"crypto/aescbcaead.aesCBCAEAD.Seal": 3, // wrong-size nonce; cipher/padding set-up errors that cannot occur after the constructor's key check
-	"ttlcache.Cache.Set":                1, // ttl <= 0
-	"errors.ErrorBuilder.Build":         1, // no ErrorInfo
+	"cron.NewParser":            1, // two optional fields
+	"ttlcache.Cache.Set":        1, // ttl <= 0
+	"errors.ErrorBuilder.Build": 1, // no ErrorInfo
 }
 
 func c07ExitCall(ci ssa.CallInstruction) string {
@@ -56,6 +55,15 @@ func (st *c07State) checkN1(scopes ...*c07Scope) {
 			}
 		}
 	}
+	// the documented Seal misuse panics: role = Seal method of a cipher.AEAD
+	// implementation of crypto/aescbcaead (wrong-size nonce; cipher/padding
+	// set-up errors that cannot occur after the constructor's key check)
+	allowedFn := map[*ssa.Function]int{}
+	if !st.fixture {
+		for _, f := range c07AEADMethods(p)["Seal"] {
+			allowedFn[f] = 3
+		}
+	}
 	for _, fn := range fns {
 		name := FuncName(p, fn)
 		allInstrs(fn, func(in ssa.Instruction) {
@@ -75,7 +83,7 @@ func (st *c07State) checkN1(scopes ...*c07Scope) {
 			perFn[name]++
 			k := perFn[name]
 			construct := fmt.Sprintf("%s %s #%d", name, what, k)
-			allowed := c07Misuse[name]
+			allowed := c07Misuse[name] + allowedFn[fn]
 			if what == "panic" && k <= allowed {
 				r.OK(c07N1, construct, p.Pos(instrPos(in)), "documented programmer-misuse panic")
 				return
@@ -86,7 +94,14 @@ func (st *c07State) checkN1(scopes ...*c07Scope) {
 		})
 	}
 	// a documented misuse panic that disappeared is fine for the property (note only)
+	want := map[string]int{}
 	for name, n := range c07Misuse {
+		want[name] = n
+	}
+	for f, n := range allowedFn {
+		want[FuncName(p, f)] += n
+	}
+	for name, n := range want {
 		if perFn[name] < n {
 			r.Note("C07.N1: %s now has %d explicit panic sites (documented: %d) — harmless for the property", name, perFn[name], n)
 			for k := perFn[name] + 1; k <= n; k++ {
@@ -135,14 +150,28 @@ func (st *c07State) lookupType(dt c07DocType) types.Type {
 	return tn.Type()
 }
 
-// c07IsHookFunc: func(reflect.Type, reflect.Type, any) (any, error)
-func c07IsHookFunc(fn *ssa.Function) bool {
-	if len(fn.Params) != 3 || fn.Signature.Results().Len() != 2 {
-		return false
+// c07HookParams: fn has the shape of a mapstructure decode hook,
+// func(reflect.Type, reflect.Type, any) (any, error) — as a function, a closure
+// or a method (the receiver is not counted). Returns from, to, data.
+func c07HookParams(fn *ssa.Function) (from, to, data *ssa.Parameter, ok bool) {
+	ps := fn.Params
+	if fn.Signature.Recv() != nil && len(ps) > 0 {
+		ps = ps[1:]
+	}
+	if len(ps) != 3 || fn.Signature.Results().Len() != 2 {
+		return nil, nil, nil, false
 	}
 	isRT := func(t types.Type) bool { return namedKey(t) == "reflect.Type" }
-	_, isIface := fn.Params[2].Type().Underlying().(*types.Interface)
-	return isRT(fn.Params[0].Type()) && isRT(fn.Params[1].Type()) && isIface
+	_, isIface := ps[2].Type().Underlying().(*types.Interface)
+	if !isRT(ps[0].Type()) || !isRT(ps[1].Type()) || !isIface {
+		return nil, nil, nil, false
+	}
+	return ps[0], ps[1], ps[2], true
+}
+
+func c07IsHookFunc(fn *ssa.Function) bool {
+	_, _, _, ok := c07HookParams(fn)
+	return ok
 }
 
 // c07ReflectTypeOf resolves a value of type reflect.Type to the Go type it
@@ -189,7 +218,16 @@ func (st *c07State) reflectTypeOf(v ssa.Value, depth int) types.Type {
 					}
 				}
 			}
+		case *ssa.FieldAddr:
+			// a reflect.Type kept in an unexported field: every store to that
+			// field (module-wide) must denote the same type
+			return st.fieldReflectType(fieldIDOfAddr(a), depth)
 		}
+		if val, _ := c07CellValue(x); val != nil {
+			return st.reflectTypeOf(val, depth+1)
+		}
+	case *ssa.Field:
+		return st.fieldReflectType(fieldIDOfField(x), depth)
 	case *ssa.FreeVar:
 		if b := resolveFreeVar(x); b != nil {
 			return st.reflectTypeOf(b, depth+1)
@@ -200,6 +238,38 @@ func (st *c07State) reflectTypeOf(v ssa.Value, depth int) types.Type {
 		return nil
 	}
 	return nil
+}
+
+func (st *c07State) fieldReflectType(id FieldID, depth int) types.Type {
+	if id.Field == "" || token.IsExported(id.Field) {
+		return nil
+	}
+	var res types.Type
+	n := 0
+	bad := false
+	for _, fn := range st.p.Funcs {
+		allInstrs(fn, func(in ssa.Instruction) {
+			sto, ok := in.(*ssa.Store)
+			if !ok {
+				return
+			}
+			fa, ok := sto.Addr.(*ssa.FieldAddr)
+			if !ok || fieldIDOfAddr(fa) != id {
+				return
+			}
+			n++
+			t := st.reflectTypeOf(sto.Val, depth+1)
+			if t == nil || (res != nil && !types.Identical(res, t)) {
+				bad = true
+				return
+			}
+			res = t
+		})
+	}
+	if bad || n == 0 {
+		return nil
+	}
+	return res
 }
 
 func c07SingleStore(a *ssa.Alloc) ssa.Value {
@@ -362,7 +432,7 @@ func (st *c07State) classifyAssert(fn *ssa.Function, ta *ssa.TypeAssert) (verdic
 	}
 
 	// decode-hook data (possibly re-assigned on some path: phi with the parameter as an edge)
-	if c07IsHookFunc(fn) && c07IsHookData(ta.X, fn.Params[2]) {
+	if _, _, data, ok := c07HookParams(fn); ok && c07IsHookData(ta.X, data) {
 		return st.hookAssert(fn, ta)
 	}
 	// parameter of an input function with interface type: the caller chooses
@@ -447,9 +517,10 @@ func (st *c07State) poolAssert(get *ssa.Call, asserted types.Type) (string, stri
 				if x.Addr == ssa.Value(g) {
 					bad = "the pool variable is overwritten"
 				}
-			case *ssa.Call:
-				if callIs(x, "sync", "Pool", "Put") && len(x.Call.Args) == 2 && x.Call.Args[0] == ssa.Value(g) {
-					puts = append(puts, x.Call.Args[1])
+			}
+			if ci, ok := in.(ssa.CallInstruction); ok {
+				if cc := ci.Common(); callIs(ci, "sync", "Pool", "Put") && len(cc.Args) == 2 && cc.Args[0] == ssa.Value(g) {
+					puts = append(puts, cc.Args[1])
 				}
 			}
 		})
@@ -624,7 +695,7 @@ func c07MethodsCalled(v ssa.Value, depth int) []string {
 // hookAssert: data.(T) inside a mapstructure decode hook.
 func (st *c07State) hookAssert(fn *ssa.Function, ta *ssa.TypeAssert) (string, string, []string) {
 	p := st.p
-	from, to, data := fn.Params[0], fn.Params[1], fn.Params[2]
+	from, to, data, _ := c07HookParams(fn)
 	asserted := ta.AssertedType
 	tdesc := types.TypeString(asserted, nil)
 	fromEq, fromKind, anyGuard := false, false, false
@@ -707,36 +778,37 @@ func c07StripIface(v ssa.Value) ssa.Value {
 // hookInputs classifies what the decoders that use hook fn are fed:
 // "string-only" (every one gets a map[string]string), "arbitrary" (at least
 // one gets an interface-typed parameter of an input function unchanged), "".
+// The decoders are looked for in the functions where the hook's value is taken
+// (the closure's factory, the function that names a top-level hook or takes a
+// method value) and, as long as those only pass it on, in their callers.
 func (st *c07State) hookInputs(fn *ssa.Function) string {
-	if factory := fn.Parent(); factory != nil {
-		if st.stringOnlyFactory(factory) {
-			return "string-only"
-		}
-		return ""
+	fv := st.eng.fv
+	start := map[*ssa.Function]bool{}
+	if par := fn.Parent(); par != nil {
+		start[origin(par)] = true
 	}
-	// top-level hook function: the functions that reference its value
-	var users []*ssa.Function
-	for _, g := range st.p.Funcs {
-		uses := false
-		allInstrs(g, func(in ssa.Instruction) {
-			for _, op := range in.Operands(nil) {
-				if op != nil && *op == ssa.Value(fn) {
-					if ci, ok := in.(ssa.CallInstruction); ok && ci.Common().Value == ssa.Value(fn) {
-						continue
-					}
-					uses = true
-				}
+	for _, u := range fv.created[origin(fn)] {
+		var in ssa.Instruction = u.In
+		if in == nil {
+			if ins, ok := u.V.(ssa.Instruction); ok {
+				in = ins
 			}
-		})
-		if uses {
-			users = append(users, g)
+		}
+		if in != nil && in.Parent() != nil {
+			start[origin(in.Parent())] = true
 		}
 	}
-	if len(users) == 0 {
+	if len(start) == 0 {
 		return ""
 	}
-	all, arbitrary := true, false
-	for _, g := range users {
+	all, arbitrary, foundAny := true, false, false
+	seen := map[*ssa.Function]bool{}
+	var visit func(g *ssa.Function, depth int)
+	visit = func(g *ssa.Function, depth int) {
+		if seen[g] {
+			return
+		}
+		seen[g] = true
 		found := false
 		allInstrs(g, func(in ssa.Instruction) {
 			c, isCall := in.(*ssa.Call)
@@ -761,61 +833,30 @@ func (st *c07State) hookInputs(fn *ssa.Function) string {
 				}
 			}
 		})
-		if !found {
-			all = false
+		if found {
+			foundAny = true
+			return
 		}
+		// g only passes the hook on: look at its callers
+		sites := st.eng.callers[g]
+		if depth >= 3 || len(sites) == 0 || st.eng.inputFunc(g) {
+			all = false
+			return
+		}
+		for _, cs := range sites {
+			visit(origin(cs.Caller), depth+1)
+		}
+	}
+	for g := range start {
+		visit(g, 0)
 	}
 	switch {
 	case arbitrary:
 		return "arbitrary"
-	case all:
+	case all && foundAny:
 		return "string-only"
 	}
 	return ""
-}
-
-// stringOnlyFactory: every static caller of factory calls
-// (*mapstructure.Decoder).Decode with a map[string]string, and the factory's
-// value does not escape.
-func (st *c07State) stringOnlyFactory(factory *ssa.Function) bool {
-	if st.eng.escaped[factory] {
-		return false
-	}
-	sites := st.eng.callers[factory]
-	if len(sites) == 0 {
-		return false
-	}
-	for _, cs := range sites {
-		ok := false
-		bad := false
-		allInstrs(cs.Caller, func(in ssa.Instruction) {
-			c, isCall := in.(*ssa.Call)
-			if !isCall {
-				return
-			}
-			obj := calleeObj(c)
-			if obj == nil || obj.Name() != "Decode" || obj.Pkg() == nil || !strings.HasSuffix(obj.Pkg().Path(), "mapstructure") {
-				return
-			}
-			args := c.Call.Args
-			arg := args[len(args)-1]
-			mi, isMI := arg.(*ssa.MakeInterface)
-			if !isMI {
-				bad = true
-				return
-			}
-			m, isMap := mi.X.Type().Underlying().(*types.Map)
-			if !isMap || !c07IsStringType(m.Key()) || !c07IsStringType(m.Elem()) {
-				bad = true
-				return
-			}
-			ok = true
-		})
-		if !ok || bad {
-			return false
-		}
-	}
-	return true
 }
 
 func c07IsStringType(t types.Type) bool {
@@ -1310,16 +1351,19 @@ func (st *c07State) checkN5() {
 				construct := fmt.Sprintf("%s make #%d", name, nMake)
 				st.intSite(c07N5, construct, p.Pos(instrPos(x)), fn, x.Len, x.Block(), 0, "the length of make", "makeslice: len out of range panic")
 			case *ssa.Call:
-				if (callIs(x, "bytes", "", "Repeat") || callIs(x, "strings", "", "Repeat")) && len(x.Call.Args) == 2 {
+				ext := st.extCallees(x)
+				if len(x.Call.Args) == 2 && c07AllIn(ext, "bytes.Repeat", "strings.Repeat", "slices.Repeat") {
 					nRep++
 					construct := fmt.Sprintf("%s Repeat count #%d", name, nRep)
-					st.intSite(c07N5r, construct, p.Pos(instrPos(x)), fn, x.Call.Args[1], x.Block(), 0, "the Repeat count", "bytes/strings.Repeat panics on a negative count")
+					st.intSite(c07N5, construct, p.Pos(instrPos(x)), fn, x.Call.Args[1], x.Block(), 0, "the Repeat count", "bytes/strings/slices.Repeat panics on a negative count")
 				}
-				for _, nm := range []string{"NewCBCEncrypter", "NewCBCDecrypter"} {
-					if callIs(x, "crypto/cipher", "", nm) && len(x.Call.Args) == 2 {
-						nIV++
-						st.checkIV(fn, x, nm, fmt.Sprintf("%s cipher.%s iv #%d", name, nm, nIV))
+				if len(x.Call.Args) == 2 && c07AllIn(ext, "crypto/cipher.NewCBCEncrypter", "crypto/cipher.NewCBCDecrypter") {
+					nIV++
+					nm := strings.TrimPrefix(ext[0], "crypto/cipher.")
+					if len(ext) > 1 {
+						nm = "NewCBCEncrypter/NewCBCDecrypter"
 					}
+					st.checkIV(fn, x, nm, fmt.Sprintf("%s cipher.%s iv #%d", name, nm, nIV))
 				}
 			case *ssa.BinOp:
 				if (x.Op == token.QUO || x.Op == token.REM) && c07isInteger(x.Type()) {
@@ -1333,6 +1377,130 @@ func (st *c07State) checkN5() {
 			}
 		})
 	}
+}
+
+func c07AllIn(got []string, want ...string) bool {
+	if len(got) == 0 {
+		return false
+	}
+	for _, g := range got {
+		ok := false
+		for _, w := range want {
+			if g == w {
+				ok = true
+			}
+		}
+		if !ok {
+			return false
+		}
+	}
+	return true
+}
+
+// extCallees: the functions outside the module a call may enter, as
+// "pkgpath.Name": the static callee, or — for a call through a function value
+// (a constructor picked by a flag, kept in a local, a parameter or a table) —
+// every function the value may denote. nil when any candidate is unknown.
+func (st *c07State) extCallees(c *ssa.Call) []string {
+	if c.Call.IsInvoke() {
+		return nil
+	}
+	name := func(f *ssa.Function) string {
+		f = origin(f)
+		obj, _ := f.Object().(*types.Func)
+		if obj == nil || obj.Pkg() == nil || obj.Type().(*types.Signature).Recv() != nil {
+			return ""
+		}
+		return obj.Pkg().Path() + "." + obj.Name()
+	}
+	var out []string
+	seen := map[ssa.Value]bool{}
+	var walk func(v ssa.Value, d int) bool
+	walk = func(v ssa.Value, d int) bool {
+		if d > 6 || v == nil {
+			return false
+		}
+		if seen[v] {
+			return true
+		}
+		seen[v] = true
+		switch x := v.(type) {
+		case *ssa.Function:
+			n := name(x)
+			if n == "" {
+				return false
+			}
+			out = append(out, n)
+			return true
+		case *ssa.Phi:
+			for _, e := range x.Edges {
+				if !walk(e, d+1) {
+					return false
+				}
+			}
+			return true
+		case *ssa.ChangeType:
+			return walk(x.X, d+1)
+		case *ssa.UnOp:
+			if x.Op == token.MUL {
+				if val, _ := c07CellValue(x); val != nil {
+					return walk(val, d+1)
+				}
+				if g, ok := x.X.(*ssa.Global); ok {
+					if val := st.singleStoreGlobal(g); val != nil {
+						return walk(val, d+1)
+					}
+				}
+				// func-typed field / table element: everything stored there
+				if cell, ok := st.eng.fv.addrCell(x.X); ok {
+					return st.walkCell(cell, walk, d)
+				}
+			}
+		case *ssa.Field:
+			return st.walkCell(c07Cell{kind: 'F', id: fieldKey(fieldIDOfField(x))}, walk, d)
+		case *ssa.Parameter:
+			fn := origin(x.Parent())
+			if st.eng.inputFunc(fn) {
+				return false
+			}
+			idx := -1
+			for i, q := range x.Parent().Params {
+				if q == x {
+					idx = i
+				}
+			}
+			sites := st.eng.callers[fn]
+			if len(sites) == 0 {
+				return false
+			}
+			for _, cs := range sites {
+				if a := cs.Arg(idx); a == nil || !walk(a, d+1) {
+					return false
+				}
+			}
+			return true
+		}
+		return false
+	}
+	if !walk(c.Call.Value, 0) {
+		return nil
+	}
+	sort.Strings(out)
+	return c07Uniq(out)
+}
+
+func (st *c07State) walkCell(cell c07Cell, walk func(ssa.Value, int) bool, d int) bool {
+	fv := st.eng.fv
+	vals := fv.stores[fv.find(cell)]
+	if len(vals) == 0 || !fv.cellTracked(cell, 0) {
+		return false
+	}
+	for _, v := range vals {
+		if !walk(v, d+1) {
+			return false
+		}
+	}
+	return true
 }
 
 // c07LenEqDominates: a dominating len(v) == c test at block b.
@@ -1362,7 +1530,7 @@ func (st *c07State) ivFree(fn *ssa.Function, v ssa.Value, at *ssa.BasicBlock, de
 		return "checked", FuncName(st.p, fn)
 	}
 	par, ok := v.(*ssa.Parameter)
-	if !ok || depth > 3 {
+	if !ok || depth > 5 {
 		return "", ""
 	}
 	if len(st.eng.opaqueGuards(fn, at, v, []c07flowKey{{c07Len, v}})) > 0 {
@@ -1377,17 +1545,17 @@ func (st *c07State) ivFree(fn *ssa.Function, v ssa.Value, at *ssa.BasicBlock, de
 			idx = i
 		}
 	}
-	sites := st.eng.callers[fn]
+	sites := st.eng.callers[origin(fn)]
 	if idx < 0 || len(sites) == 0 {
 		return "", ""
 	}
 	all := true
 	for _, cs := range sites {
-		args := cs.Instr.Common().Args
-		if idx >= len(args) {
+		arg := cs.Arg(idx)
+		if arg == nil {
 			return "", ""
 		}
-		v2, chain := st.ivFree(cs.Caller, c07SameLen(args[idx]), cs.Instr.Block(), depth+1)
+		v2, chain := st.ivFree(cs.Caller, c07SameLen(arg), cs.Instr.Block(), depth+1)
 		switch v2 {
 		case "free":
 			return "free", chain + " -> " + FuncName(st.p, fn)
